@@ -1,6 +1,6 @@
 """Build and run generated Sway packages through the real forc pipeline (harness bin `swayrun`)."""
 import os, json, shutil, concurrent.futures as cf
-from .core import NCPU
+from .core import NCPU, REPO
 from . import rust
 
 FORC_TOML = """[project]
@@ -10,7 +10,7 @@ license = "Apache-2.0"
 name = "%(name)s"
 %(extra)s
 [dependencies]
-std = { path = "/repo/sway-lib-std" }
+std = { path = "%(repo)s/sway-lib-std" }
 %(deps)s
 """
 
@@ -20,7 +20,7 @@ def write_pkg(base, name, sources, entry="lib.sw", deps="", extra=""):
     if os.path.exists(d):
         shutil.rmtree(d)
     os.makedirs(os.path.join(d, "src"))
-    open(os.path.join(d, "Forc.toml"), "w").write(FORC_TOML % {"entry": entry, "name": name, "deps": deps, "extra": extra})
+    open(os.path.join(d, "Forc.toml"), "w").write(FORC_TOML % {"entry": entry, "name": name, "deps": deps, "extra": extra, "repo": REPO})
     for rel, text in sources.items():
         p = os.path.join(d, "src", rel)
         os.makedirs(os.path.dirname(p), exist_ok=True)
